@@ -185,6 +185,25 @@ def findIrreducible (d fuel : Nat) : Option Nat := nextIrreducible fuel (2 ^ d -
 def xGF (m : Nat) : Except Err (Nat × Nat) :=
   if isIrreducible m then .ok (2 ^ (bitLen m - 1), bitLen m - 1) else .error .value
 
+/-- reverse the binary digits of `a` ≙ `int(format(a, 'b')[::-1], 2)`; fuel ≥ a suffices -/
+def revBitsAux : Nat → Nat → Nat → Nat
+  | 0, _, acc => acc
+  | f + 1, a, acc => if a = 0 then acc else revBitsAux f (a / 2) (acc * 2 + a % 2)
+
+def revBits (a : Nat) : Nat := revBitsAux a a 0
+
+/-- ≙ gfpx.py `BinaryPolynomial._reverse(a, d)` (as of repo commit f8e05fb): truncate to `d + 1` bits, reverse the
+bits, pad with `d + 1 - bit_length` zeros.  The argument is `d + 1`; `none` ≙ `d = None` -/
+def reverse (a : Nat) (d1 : Option Nat) : Nat :=
+  match d1 with
+  | none => revBits a
+  | some n =>
+    let a := if n < bitLen a then a % 2 ^ n else a
+    revBits a <<< (n - bitLen a)
+
+/-- ≙ gfpx.py `BinaryPolynomial._truncate(a, n)`: `a & ((1 << n) - 1)` -/
+def truncate (a n : Nat) : Nat := a % 2 ^ n
+
 /-- ≙ gfpx.py:879 `_from_int` -/
 def fromInt (a : Int) : Nat := a.natAbs
 
